@@ -23,6 +23,8 @@ type XSpec struct {
 	// plus a canonical dump of the final state (may be empty).
 	Exec func(x *XSpec, s *vsched.Sched, hist []Op, wantDump bool) (*Mismatch, string)
 	// DeadEnd is set by Exec/ExecNode implementations through HistOutcome.Dead (see SetDead)
+	// Prefix is executed before every history (a non-initial start state); it is not counted in Depth.
+	Prefix []Op
 	// ExecNode, if set, replaces the default "one scheduler run around Exec".
 	ExecNode func(x *XSpec, hist []Op, wantDump bool) HistOutcome
 	// Prune, if set, says that op may not follow hist (symmetry / redundancy).
